@@ -28,12 +28,21 @@ std::string read_file(const std::string& path) {
     return ss.str();
 }
 
+bool is_chunk_file_name(const std::string& n) {
+    if (n.size() < 64) return false;
+    for (std::size_t i = 0; i < 64; ++i) if (!std::isxdigit(static_cast<unsigned char>(n[i]))) return false;
+    return true;
+}
+// the name under which the store keeps the chunk that file `n` belongs to
+std::string canonical_name(const std::string& n) { return n.substr(0, 64) + ".chunk"; }
+
 std::vector<std::string> list_chunk_files(const std::string& dir) {
     std::vector<std::string> v;
     if (DIR* d = opendir(dir.c_str())) {
         while (dirent* e = readdir(d)) {
             std::string n = e->d_name;
-            if (n.size() > 6 && n.substr(n.size() - 6) == ".chunk") v.push_back(n);
+            // every file whose name starts with a chunk id belongs to that chunk, whatever its suffix (staging, backup, ...)
+            if (is_chunk_file_name(n)) v.push_back(n);
         }
         closedir(d);
     }
@@ -133,7 +142,7 @@ void exec_c04(const Plan& p, Ctx& ctx) {
         for (; log_pos < log.size(); ++log_pos) {
             const auto& e = log[log_pos];
             const std::string f = base(e.path);
-            if (f.size() < 6 || f.substr(f.size() - 6) != ".chunk") continue;
+            if (!is_chunk_file_name(f)) continue;
             if (e.result != 0) {
                 if (!frozen && (e.kind == "unlink" || (e.kind == "write" && e.all_zero))) { removal_faulted.insert(f); ctx.fault("disk_error_on_wipe_or_unlink"); }
                 else if (!frozen) ctx.fault("disk_error_on_data_path");
@@ -160,6 +169,18 @@ void exec_c04(const Plan& p, Ctx& ctx) {
         std::set<std::string> present(files.begin(), files.end());
         for (auto& f : files) {
             if (removal_faulted.count(f)) continue;  // narrow relaxation: its own removal was hit by an injected error
+            if (f != canonical_name(f)) {
+                // a side file of a chunk (e.g. a staging file): it may exist while its chunk lives, never after the cleanup
+                // that follows the chunk's deadline
+                ctx.probe("side_file_seen");
+                std::int64_t dl = -1;
+                if (auto ci = cur.find(canonical_name(f)); ci != cur.end()) dl = ci->second.deadline;
+                if (auto oi = orphans.find(f); oi != orphans.end()) dl = dl < 0 ? oi->second.deadline : std::min(dl, oi->second.deadline);
+                if (dl < 0) ctx.violate("C04.file_outlives_chunk", fmt("file %s... exists but no live chunk owns it (%s)", f.substr(0, 8).c_str(), when));
+                else if (after_cleanup && dl <= now)
+                    ctx.violate("C04.side_file_after_cleanup", fmt("file %s...%s still exists after a cleanup at t=%.3f; its chunk's deadline was %.3f (%s)", f.substr(0, 8).c_str(), f.substr(64).c_str(), now / 1e9, dl / 1e9, when));
+                continue;
+            }
             auto it = cur.find(f);
             if (it != cur.end()) {
                 if (!it->second.persisted && !orphans.count(f))
@@ -194,7 +215,7 @@ void exec_c04(const Plan& p, Ctx& ctx) {
         // whatever is on disk now belongs to an earlier instance
         for (auto& f : list_chunk_files(dir)) {
             std::int64_t dl = sk::now_ns();
-            if (auto it = cur.find(f); it != cur.end()) dl = it->second.deadline;
+            if (auto it = cur.find(canonical_name(f)); it != cur.end()) dl = it->second.deadline;
             else if (auto ot = orphans.find(f); ot != orphans.end()) dl = ot->second.deadline;
             orphans[f] = {dl};
         }
